@@ -480,6 +480,61 @@ theorem cookie_round_trip (fb' : Policy) (pool : Pool) (ds' : List Nat) (i : Nat
   intro hlt
   exact h5 i u hlt hu ⟨hav, rfl⟩
 
+/-! ## the proxy loop: "available" is judged against the requests really in flight
+
+`prun` is the handler around `Select`: requests arrive (`hold` stays in flight at the backend,
+`quick` completes), held requests complete (`fin k`); the pool every `Select` sees carries, per
+address, the number of requests in flight on it — for static upstreams and for upstreams handed
+out afresh by a dynamic source alike (they share the per-address host state). -/
+
+/-- the in-flight number `Select` sees for an address is exactly the number of held requests
+    that were sent to it and have not completed -/
+theorem proxy_loads_are_requests_in_flight (m : Nat) (ids : List Nat) (p : Policy) (ds : List Nat) (evs : List Ev)
+    (j l : Nat) (h : (prun m ids (pinit p ids ds) evs).2.loads[j]? = some l) :
+    l = (prun m ids (pinit p ids ds) evs).2.held.count (some j) :=
+  (prun_inv m ids evs _ (pinit_inv m p ids ds)).2 j l h
+
+/-- a request is only ever sent to an address that is below the request limit at that moment -/
+theorem proxy_sends_only_below_limit (m : Nat) (ids : List Nat) (s : PState) (e : Ev) (i : Nat)
+    (h : (pstep m ids s e).1 = .sent i) : ∃ l, s.loads[i]? = some l ∧ (0 < m → l < m) := by
+  cases e with
+  | quick =>
+    simp only [pstep] at h
+    exact select_idx_available (by rw [outOf_sent h]; rfl)
+  | hold =>
+    simp only [pstep] at h
+    exact select_idx_available (by rw [outOf_sent h]; rfl)
+  | fin k =>
+    simp only [pstep] at h
+    split at h <;> cases h
+
+/-- … hence, whatever the clients do and whatever the policy, no address ever carries more
+    requests than the limit -/
+theorem proxy_never_exceeds_request_limit (m : Nat) (ids : List Nat) (p : Policy) (ds : List Nat) (evs : List Ev)
+    (hm : 0 < m) : ∀ l ∈ (prun m ids (pinit p ids ds) evs).2.loads, l ≤ m :=
+  all_le_of_get ((prun_inv m ids evs _ (pinit_inv m p ids ds)).1 hm)
+
+/-- a request is refused (503) only if every address is at its limit (for the policies and
+    under the exclusions of `select_some_if_any_available_partial`) -/
+theorem proxy_refuses_only_when_all_full (m : Nat) (ids : List Nat) (s : PState) (e : Ev)
+    (hl : liveOK (mkPool m ids s.loads) s.pol = true) (h : (pstep m ids s e).1 = .refused) :
+    ∀ u ∈ mkPool m ids s.loads, 0 < m ∧ m ≤ u.load := by
+  have hnone : (select true s.pol (mkPool m ids s.loads) s.draws).res = .none := by
+    cases e with
+    | quick => simp only [pstep] at h; exact outOf_refused h
+    | hold => simp only [pstep] at h; exact outOf_refused h
+    | fin k => simp only [pstep] at h; split at h <;> cases h
+  intro u hu
+  have hav : u.avail = false := by
+    cases hh : u.avail with
+    | false => rfl
+    | true =>
+      exact absurd hnone (select_some_if_any_available_partial s.pol true _ s.draws hl (anyAvail_iff.2 ⟨u, hu, hh⟩))
+  have := (mkPool_avail m ids s.loads u hu).1
+  rw [hav] at this
+  simp at this
+  omega
+
 /-! ## the draw list: random and least_conn use at most one draw per upstream -/
 
 /-- the model never runs out of draws when given one draw per upstream -/
@@ -578,5 +633,17 @@ example : (select true (.cookie (some 3) .random) exPool [0, 1, 1]).res = .sel 1
 
 -- the draw list: one draw per upstream is enough
 example : exPool.length ≤ [3, 0, 1, 0, 0].length ∧ (selRandom exPool [3, 0, 1, 0, 0]).1 = .sel 3 ∧ (selRandom exPool [3]).1 = .starved := by decide
+
+-- the proxy loop: limit 1, two addresses, policy first: held → 0, quick → 1, held → 1, quick → refused,
+-- first held request completes, quick → 0; one request still in flight on address 1
+example : (prun 1 [7, 9] (pinit .first [7, 9] []) [.hold, .quick, .hold, .quick, .fin 0, .quick]).1
+      = [.sent 0, .sent 1, .sent 1, .refused, .done, .sent 0] ∧
+    (prun 1 [7, 9] (pinit .first [7, 9] []) [.hold, .quick, .hold, .quick, .fin 0, .quick]).2.loads = [0, 1] ∧
+    (prun 1 [7, 9] (pinit .first [7, 9] []) [.hold, .quick, .hold, .quick, .fin 0, .quick]).2.held = [none, some 1] := by decide
+-- least_conn without limit: while address 0 holds a request every new request goes to address 1
+example : (prun 0 [7, 9] (pinit .leastConn [7, 9] [1]) [.hold, .quick, .quick, .fin 0, .fin 0]).1
+      = [.sent 0, .sent 1, .sent 1, .done, .idle] := by decide
+example : liveOK (mkPool 1 [7, 9] [1, 1]) .first = true ∧
+    (pstep 1 [7, 9] ⟨.first, [1, 1], [some 0, some 1], []⟩ .quick).1 = .refused := by decide
 
 end CaddyModel.C08
